@@ -210,6 +210,11 @@ def r18_2_3(run):
                 if (isinstance(inner, (ast.ListComp, ast.SetComp, ast.GeneratorExp)) and any(c.ifs for c in inner.generators)) or \
                         (isinstance(v, ast.BinOp) and isinstance(v.op, ast.Sub) and any(isinstance(x, ast.Call) and dotted(x.func) == 'set' for x in ast.walk(v))):
                     groups.add(nm)
+        multi = [nm for nm in mentioned if len(defs.get(nm, [])) > 1]
+        if multi and isinstance(it, ast.Name):
+            # the candidate list is (re)assembled in several steps: which listeners it finally holds is a data-flow question
+            # this structural rule does not answer
+            raise Undecided('_create_socks_endpoint: the candidate list %s is bound %d times before the loop' % (multi[0], len(defs.get(multi[0], []))))
         full = not sel and (groups <= mentioned or not groups)
         run.ob('R18.3', u, lp, 'every existing SOCKS listener is a candidate', full, slot='all-candidates',
                message='the candidate loop iterates %s: %s, so a usable existing listener can be skipped and Tor re-configured'
